@@ -85,6 +85,7 @@ def strip_imports(new_text, old_text):
 
 
 def execute(case, ctx):
+    ctx.persistent = True  # plugin sessions of this history share one directory incl. __pycache__ (logical clock for mtimes, see sim.sync_tree)
     prog, driver, fmt = case["program"], case["driver"], case["fmt"]
     out = {"violations": [], "discards": {}, "abstract": []}
 
